@@ -205,7 +205,7 @@ def scenarios(tier="quick"):
             out.append(Scenario("convert_intensity: colour %s, intensity %s" % (hc, hi), conv_scenario("convert_intensity", "Invalid", "Invalid", hc, hi), conv_claims, max_paths=50, replayer=ConvReplay()))
     for ck in kinds:
         out.append(Scenario("transform_point: cartesian %s" % ck, conv_scenario("transform_point", ck, "Invalid"), conv_claims, max_paths=50, replayer=ConvReplay()))
-    out.append(Scenario("prepare_transform: quaternion -> rotation matrix", prepare_transform_scenario(), prepare_transform_claims, max_paths=50))
+    out.append(Scenario("prepare_transform: quaternion -> rotation matrix", prepare_transform_scenario(), prepare_transform_claims, max_paths=50, replayer=TransformReplay()))
     return out
 
 
@@ -622,4 +622,62 @@ class PopReplay(AbsReaderReplay):
         other = [k for k, x in vals.items() if x is False]
         if other:
             return True, "on the native run the claim '%s' is false (the named claim evaluates to %r)" % (other[0], vals.get(claim_name)), info
+        return False, "claim evaluates to %r natively" % (vals.get(claim_name),), info
+
+
+# ------------------------------------------------------------------------------------------------ native replay for prepare_transform
+TRANSFORM_DRIVER = r"""
+#[cfg(test)]
+mod verif_replay {
+    use super::*;
+    #[test]
+    fn verif_replay_case() {
+        let mut pc = crate::PointCloud::default();
+        pc.transform = Some(Transform { rotation: crate::Quaternion { w: %(w)s, x: %(x)s, y: %(y)s, z: %(z)s }, translation: Translation { x: %(tx)s, y: %(ty)s, z: %(tz)s } });
+        println!("VR pre_offset=0");
+        let (rot, tr) = PointCloudReaderSimple::<std::io::Cursor<Vec<u8>>>::prepare_transform(&pc);
+        let v: Vec<String> = rot.iter().map(|e| format!("{}", e.to_bits())).collect();
+        println!("VR rot={} tr={}:{}:{}", v.join(":"), tr.x.to_bits(), tr.y.to_bits(), tr.z.to_bits());
+        println!("VR post_offset=0");
+    }
+}
+"""
+
+
+class TransformReplay:
+    def extract(self, I, model, o):
+        vals = {}
+        for name in ("qw", "qx", "qy", "qz", "tx", "ty", "tz"):
+            v = model.eval(fsym(name), model_completion=True)
+            b = z3.simplify(z3.fpToIEEEBV(v))
+            vals[name] = b.as_long() if z3.is_bv_value(b) else 0x7ff8000000000000
+        return dict(vals=vals)
+
+    def run(self, I, scenario, claim_name, pre):
+        v = pre["vals"]
+        f = lambda n: "f64::from_bits(%d)" % v[n]
+        code = TRANSFORM_DRIVER % dict(w=f("qw"), x=f("qx"), y=f("qy"), z=f("qz"), tx=f("tx"), ty=f("ty"), tz=f("tz"))
+        rc, out = run_rust_test(I.crate_dir, "pc_reader_simple.rs", code)
+        kv = parse_kv(out)
+        info = dict(pre=pre, rust=code)
+        pan = native_panicked(out)
+        if claim_name == "no panic":
+            return (pan is not None and "pre_offset" in kv), "native: " + (pan or "no panic"), info
+        if pan or "post_offset" not in kv:
+            return False, "native run did not complete: " + (pan or out[-300:]), info
+        env = {n: z3.fpBVToFP(z3.BitVecVal(b, 64), F64) for n, b in v.items()}
+        rot = Agg("array", [z3.fpBVToFP(z3.BitVecVal(int(x), 64), F64) for x in kv["rot"].split(":")], "[f64; 9]")
+        tn = I.struct_fields["Translation"]
+        tf = [None] * 3
+        for nm, x in zip(("x", "y", "z"), kv["tr"].split(":")):
+            tf[tn.index(nm)] = z3.fpBVToFP(z3.BitVecVal(int(x), 64), F64)
+        o = dict(q=[fsym("qw"), fsym("qx"), fsym("qy"), fsym("qz")], t=[fsym("tx"), fsym("ty"), fsym("tz")],
+                 res=Agg("tuple", [rot, Agg("struct", tf, "Translation")]))
+        vals = {}
+        for name, c in scenario.claims(o, I):
+            c = z3.simplify(concretize(c, env))
+            vals[name] = True if z3.is_true(c) else (False if z3.is_false(c) else None)
+        info["native_claims"] = vals
+        if vals.get(claim_name) is False:
+            return True, "claim is false on the native result", info
         return False, "claim evaluates to %r natively" % (vals.get(claim_name),), info
